@@ -90,6 +90,8 @@ func init() {
 			}},
 		Rule{ID: "C06.m", Explain: "no failure is dropped during issuance (builder.go, issuer.go): a failed generator, commitment, signature or proof step ends the call instead of leaving a nil value in the builder or the message (same rule as C08.g: the error a call returns has a use - a nil test or a return - before it is overwritten, shadowed or left behind).",
 			Run: func(P *Program, R *Report) { errorResultsUsedRule(P, R, "C06.m", inFiles(P, "builder.go", "issuer.go"), nil, 10) }},
+		Rule{ID: "C06.n", Explain: "the issuer sees every proof of the commitment message: ProofList.UnmarshalJSON (the decoder of IssueCommitmentMessage.Proofs) makes one object per element and returns nil only after the whole list was looked at (the obligations of C08.e, same rule) - a list that stops at the first disclosure proof loses the ProofU and an honest issuance fails.",
+			Run: func(P *Program, R *Report) { sharedRule(P, R, "C08", "C08.e", "C06.n", nil) }},
 	)
 }
 
